@@ -292,12 +292,24 @@ def elementwise(db, fn):
     T = exprtree.Trees(db, fn)
     pushes = [t for _, t in fn.calls() if t['f'].get('name') == 'push' and len(t.get('args', [])) == 2]
     if len(pushes) == 1:
+        defs = defs_of(fn)
+
         def loop_elem(t):
             if t[0] == 'next' and len(t) == 2:
                 src = t[1]
                 while isinstance(src, tuple) and src[0] in ('iter', 'into_iter') and len(src) == 2:
                     src = src[1]
                 return ('ELEM', src)
+            # `while let [x, rest @ ..] = remaining { .. remaining = rest }`: the head of a slice that starts as xs and
+            # is replaced by its own tail
+            if t[0] == 'proj' and isinstance(t[1], tuple) and t[1][0] == 'phi' and t[2] == ('cidx', 0, False):
+                ds = defs.get(t[1][1], [])
+                trees = [T.rvalue(d[2], 1) for d in ds if d[1] == 'assign']
+                tails = [x for x in trees if isinstance(x, tuple) and x[0] == 'proj' and x[1] == t[1] and
+                         isinstance(x[2], tuple) and x[2][0] == 'sub' and tuple(x[2][1])[:1] == (1,)]
+                srcs = [x for x in trees if x not in tails]
+                if len(ds) == len(trees) == 2 and len(tails) == 1 and len(srcs) == 1:
+                    return ('ELEM', srcs[0])
             return t
         return rewrite(T.operand(pushes[0]['args'][1]), loop_elem), 'loop'
     rt = T.local(0)
